@@ -84,6 +84,8 @@ static uint16_t chunkid_prev2;
 /* Ids of the queries before chunkid_prev2, most recent first (0 = none) */
 #define CHUNKID_OLDER 13
 static uint16_t chunkid_older[CHUNKID_OLDER];
+/* chunkid has gone out in a query (its random start value never does) */
+static int chunkid_sent;
 
 /* The encoder used for data packets
  * Defaults to Base32, can be changed after handshake */
@@ -117,6 +119,7 @@ client_init(void)
 	conn = CONN_DNS_NULL;
 
 	chunkid = ((unsigned int) rand()) & 0xFFFF;
+	chunkid_sent = 0;
 	chunkid_prev = 0;
 	chunkid_prev2 = 0;
 	memset(chunkid_older, 0, sizeof(chunkid_older));
@@ -248,7 +251,8 @@ send_query(int fd, char *hostname)
 		sizeof(chunkid_older) - sizeof(chunkid_older[0]));
 	chunkid_older[0] = chunkid_prev2;
 	chunkid_prev2 = chunkid_prev;
-	chunkid_prev = chunkid;
+	chunkid_prev = chunkid_sent ? chunkid : 0;
+	chunkid_sent = 1;
 	chunkid += 7727;
 	if (chunkid == 0)
 		/* 0 is used as "no-query" in iodined.c */
